@@ -39,6 +39,8 @@ def groups(tier, seed):
     for key in ('accessed', 'created', 'modified'):
         for desc in (False, True):
             yield {'kind': 'arcdate', 'key': key, 'desc': desc, 'keys': [key], 'cases': []}
+    # archive members are rows too: a key that is not selected orders them by their own values
+    yield {'kind': 'arckeys', 'keys': ['arckeys'], 'cases': []}
     # keys some rows have no value for, next to negative and fractional values; whole numbers beyond 2^53; years beyond 9999
     for fam in ('empty', 'bigint', 'fardate'):
         yield {'kind': 'oddkeys', 'fam': fam, 'keys': [fam], 'cases': []}
@@ -70,6 +72,8 @@ def groups(tier, seed):
 def single(case):
     if case.get('kind') == 'tty':
         return {'kind': 'tty', 'keys': ['tty'], 'cases': [], 'only': case['query']}
+    if case.get('kind') == 'arckeys':
+        return {'kind': 'arckeys', 'keys': ['arckeys'], 'cases': [], 'only': case['query']}
     if case.get('kind') == 'oddkeys':
         return {'kind': 'oddkeys', 'fam': case['fam'], 'keys': [case['fam']], 'cases': [], 'only': [case['key'], case['desc'], case['rd'], case['limit']]}
     if case.get('kind') == 'arcdate':
@@ -129,6 +133,52 @@ def eval_arcdate(env, group):
                         else:
                             res.update(status='ok', sig=tuple(p_ for p_, _ in dated))
                     outs.append(res)
+    finally:
+        env.rmtree(root)
+    return outs
+
+
+def eval_arckeys(env, group):
+    import io
+    import zipfile
+    root = env.newdir('c5k')
+    F, D = core.F, core.D
+
+    def z(members):
+        buf = io.BytesIO()
+        with zipfile.ZipFile(buf, 'w') as zf:
+            for i, (n, size, day) in enumerate(members):
+                zf.writestr(zipfile.ZipInfo(n, date_time=(2015 + day, 1 + day % 12, 1 + day, 4, 5, 2 * i)), 'x' * size)
+        return buf.getvalue()
+    core.materialise(root, {'k.zip': F(data=z([('mm.log', 50, 7), ('zz.txt', 7, 3), ('aa.rs', 900, 9), ('q.md', 1, 1), ('bbbbb.c', 300, 5)])), 'f10': F(10), 'f400.txt': F(400),
+                            'sub': D({'j.jar': F(data=z([('w', 20, 2), ('a.longer.name', 2, 8), ('k.k', 200, 4)])), 'g60.log': F(60)})})
+    outs = []
+    try:
+        for key, conv in (('size', int), ('name', str), ('modified', str), ('size * 2', int), ('length(name)', int), ('ext', str), ('1000 - size', int)):
+            for desc in ('', ' desc'):
+                for w in ('', ' where size gt 5'):
+                    for mode in ('', ' dfs'):
+                        q = 'path from . archives%s%s order by %s%s' % (mode, w, key, desc)
+                        if group.get('only') is not None and group['only'] != q:
+                            continue
+                        o = env.run([q + ' into list'], cwd=root)
+                        o2 = env.run(['path, %s from . archives%s%s into list' % (key, mode, w)], cwd=root)
+                        rows, rows2 = o.rows(), o2.rows(2)
+                        res = {'case': {'kind': 'arckeys', 'query': q}, 'layer': 'archive-member-keys', 'nt': True, 'trans': len(rows or []) + 1}
+                        if o.timeout or o.rc != 0 or o.err or o2.rc != 0 or rows2 is None:
+                            res.update(status='viol', cls='status-or-shape', detail=dict(o.brief(), query=q), sig=('err',))
+                        elif sorted(rows) != sorted(p_ for p_, _ in rows2) or len(rows) < (8 if w else 12):
+                            res.update(status='viol', cls='not-a-permutation', sig=('perm',), detail={'query': q, 'n': len(rows), 'expected_n': len(rows2)})
+                        else:
+                            val = {p_: conv(v) for p_, v in rows2}
+                            ks = [val[p_] for p_ in rows]
+                            bad = next((i for i in range(len(ks) - 1) if (ks[i] > ks[i + 1]) != bool(desc) and ks[i] != ks[i + 1]), None)
+                            if bad is not None:
+                                res.update(status='viol', cls='unsorted:unselected-key-of-members', sig=('unsorted', key),
+                                           detail={'query': q, 'pair': [[rows[bad], str(ks[bad])], [rows[bad + 1], str(ks[bad + 1])]]})
+                            else:
+                                res.update(status='ok', sig=tuple(rows))
+                        outs.append(res)
     finally:
         env.rmtree(root)
     return outs
@@ -299,6 +349,8 @@ def eval_group(env, group, tier):
         return eval_arcdate(env, group)
     if group.get('kind') == 'oddkeys':
         return eval_oddkeys(env, group)
+    if group.get('kind') == 'arckeys':
+        return eval_arckeys(env, group)
     if group.get('kind') == 'tty':
         return eval_tty(env, group)
     root = env.newdir('c5')
